@@ -116,7 +116,7 @@ fn agg_sig_arm<const LM: usize>(op: u16, kind: u8, idx: usize, amount: u64) {
     }
     let key_ok = kb[0] != 0xEE && kb[0] != 0xC0;
     let banned = idx == 7 && unsafe_banned(&mb, &TEST_CONSTANTS);
-    let list = one_condition(&mut w.a, op);
+    let list = one_condition_args(&mut w.a, op, &[key, msg]);
     let mut o = run_empty(&mut w, spend, list, kind);
     check_outcome(&mut w, &mut o, op, AC::AggSig(idx, key_ok, banned));
     if o.err.is_none() {
